@@ -50,10 +50,10 @@ def run(ctx, rep, tier):
     ]
     trees += directed
     samples, n = [], 0
-    t0 = time.time()
+    t0 = time.process_time()
     budget = 240 if tier == "quick" else 3000
     for tree, sx in trees:
-        if time.time() - t0 > budget:
+        if time.process_time() - t0 > budget:
             rep.coverage["truncated_after"] = n
             break
         # the specification: no action => as if "( tree ) -a -print" had been written
